@@ -41,7 +41,8 @@ def run(ctx):
                 if t[0] == "call" and t[1] == "builtins.len" and t[2]:
                     if t[2][0] == arg:
                         return la
-                    if t[2][0] == ("param", "url"):
+                    if _not_longer_than_url(ctx, t[2][0]):
+                        # the measure may be taken on the url or on a rewriting of it that never lengthens it
                         return lu
                     raise Unknown("len of other")
                 if t == ("param", "recursive"):
@@ -128,7 +129,7 @@ def run(ctx):
     try:
         A = Algebra()
         a = A.regex(rx.pattern, rx.flags, "fullmatch")
-        okl = A.regex(r"[?&]?[A-Za-z_]+=[^&\n]+", rx.flags, "fullmatch")
+        okl = A.regex(r"(?:[?&](?:amp(?:;|%3B))?)?[A-Za-z_]+=[^&\n]+", rx.flags, "fullmatch")
         nonl = A.regex(r"[^\n]*", 0, "fullmatch")
         w = A.subset(A.inter(a, nonl), okl)
         ctx.ob("R2", "redirect-key-position", w is None,
@@ -142,6 +143,38 @@ def run(ctx):
     # the no-target path returns url unchanged
     plain = [r for r in rets if r.term == ("param", "url")]
     ctx.ob("R2", "returns-input-when-nothing-found", bool(plain), "infer_redirection has no path returning its argument unchanged", site)
+
+
+def _not_longer_than_url(ctx, t):
+    """t is the url parameter, or PATTERN.sub(callback, <such a term>) where every match of PATTERN is a %HH escape
+    (regex-language inclusion) and the callback never returns more characters than it was given (all 484 escapes)."""
+    if t == ("param", "url"):
+        return True
+    op = F.regex_op(t)
+    if op is None or op[1] != "sub" or len(op[2]) != 2 or op[2][0][0] != "funcref" or not _not_longer_than_url(ctx, op[2][1]):
+        return False
+    repo = ctx.repo
+    mod, _, name = op[0].rpartition(".")
+    try:
+        rx = repo.const(repo.mod(mod), name)
+        from ..relang import Algebra, Unsupported
+        A = Algebra()
+        if A.subset(A.regex(rx.pattern, rx.flags, "fullmatch"), A.regex(r"%[0-9A-Fa-f]{2}", 0, "fullmatch")) is not None:
+            return False
+        import re as _re
+        from ..microeval import run_function
+        crx = _re.compile(rx.pattern, rx.flags)
+        cmod, _, cname = op[2][0][1].rpartition(".")
+        cb = repo.mod(cmod).func(cname)
+        hexd = "0123456789abcdefABCDEF"
+        for a in hexd:
+            for b in hexd:
+                m = crx.fullmatch("%" + a + b)
+                if m is not None and len(run_function(repo, cb, [m])) > 3:
+                    return False
+        return True
+    except Exception:
+        return False
 
 
 def _other_guard(conds, call):
